@@ -15,6 +15,7 @@ from .core import REPO
 sys.path.insert(0, str(REPO))
 
 _cache = {}
+PARENTS = {}      # (p, d, mc) -> prime of the parent class (set from the field catalogue)
 
 
 def field_classes(p: int, d: int, mc, family: str):
@@ -25,6 +26,16 @@ def field_classes(p: int, d: int, mc, family: str):
     key = (p, d, tuple(mc), family)
     if key in _cache:
         return _cache[key]
+    par = PARENTS.get((p, d, tuple(mc)))
+    if par:
+        # the way the library defines its own fields: a subclass that only overrides field_modulus - here of a
+        # class over ANOTHER prime that has already been instantiated and used
+        base = field_classes(par, d, mc, family)
+        x = mk(base, d, [1] * d)
+        _ = x * x + x
+        cls = type(f"T{family}Sub{d}_{p}_of_{par}", (base,), {"field_modulus": p})
+        _cache[key] = cls
+        return cls
     if family == "ref":
         from py_ecc.fields import field_elements as fe
     else:
